@@ -64,21 +64,26 @@ What(a, b) == IF a[1] # b[1] THEN "character" ELSE IF a[2].attrs # b[2].attrs TH
               ELSE IF a[2].fg # b[2].fg THEN "foreground" ELSE IF a[2].bg # b[2].bg THEN "background" ELSE "link"
 
 DecCells == [i \in DOMAIN R.dec |-> <<R.dec[i][1], PenOf(R.dec[i][2])>>]
+\* Shown / Expected / DecCells are bound once per record (LET values are computed once): records of thousands of cells stay cheap
 Verdict ==
+    LET sh == Shown
+        ex == Expected
+        dc == DecCells
+    IN
     IF R.exc # "none" THEN "raises-" \o R.exc
     ELSE IF R.cfg.system = "none" /\ HasEscape THEN "escape-sequence-with-colour-disabled"
     ELSE IF R.cfg.nocolor /\ HasColourParam THEN "colour-parameter-under-NO_COLOR"
     ELSE IF ~R.cfg.terminal /\ HasControl THEN "control-code-on-non-terminal"
     ELSE IF \E i \in DOMAIN R.out : R.out[i][1] = "unk" THEN "unknown-escape-sequence"
     ELSE IF R.cfg.terminal /\ Controls # Codes(R.ctls) THEN "control-codes-differ"
-    ELSE IF Len(Shown.cells) # Len(Expected) THEN "visible-characters-differ"
-    ELSE IF \E i \in DOMAIN Expected : ~SameCell(Shown.cells[i], Expected[i])
-         THEN "cell-differs:" \o What(Shown.cells[FirstDiff(Shown.cells, Expected)], Expected[FirstDiff(Shown.cells, Expected)])
-    ELSE IF Shown.pen # NullPen THEN "style-leaks-past-the-end"
+    ELSE IF Len(sh.cells) # Len(ex) THEN "visible-characters-differ"
+    ELSE IF \E i \in DOMAIN ex : ~SameCell(sh.cells[i], ex[i])
+         THEN LET k == FirstDiff(sh.cells, ex) IN "cell-differs:" \o What(sh.cells[k], ex[k])
+    ELSE IF sh.pen # NullPen THEN "style-leaks-past-the-end"
     ELSE IF ~R.hasdec THEN "ok"
-    ELSE IF Len(DecCells) # Len(Shown.cells) THEN "decoder:characters-differ"
-    ELSE IF \E i \in DOMAIN DecCells : ~SameCell(DecCells[i], Shown.cells[i])
-         THEN "decoder:" \o What(DecCells[FirstDiff(DecCells, Shown.cells)], Shown.cells[FirstDiff(DecCells, Shown.cells)])
+    ELSE IF Len(dc) # Len(sh.cells) THEN "decoder:characters-differ"
+    ELSE IF \E i \in DOMAIN dc : ~SameCell(dc[i], sh.cells[i])
+         THEN LET k == FirstDiff(dc, sh.cells) IN "decoder:" \o What(dc[k], sh.cells[k])
     ELSE "ok"
 
 Init == tid \in 1..Len(Recs)
